@@ -362,7 +362,7 @@ def empty_cwd():
     return d
 
 
-def run_delta(args, stdin=b"", env_extra=None, parent=("git", "verif-harness"), timeout=20, cwd=None):
+def run_delta(args, stdin=b"", env_extra=None, parent=("git", "verif-harness"), timeout=20, cwd=None, pass_fds=()):
     """run the hooked binary as a child of a fake `git verif-harness` parent (so that its
     calling-process detection answers None at once, deterministically).
     returns (returncode or 'timeout', stdout bytes, stderr bytes)"""
@@ -377,7 +377,7 @@ def run_delta(args, stdin=b"", env_extra=None, parent=("git", "verif-harness"), 
         exe = DELTA
     try:
         p = subprocess.run(argv, executable=exe, input=stdin, stdout=subprocess.PIPE, stderr=subprocess.PIPE,
-                           env=env, cwd=cwd, timeout=timeout)
+                           env=env, cwd=cwd, timeout=timeout, pass_fds=pass_fds)
         return p.returncode, p.stdout, p.stderr
     except subprocess.TimeoutExpired as e:
         return "timeout", e.stdout or b"", e.stderr or b""
